@@ -356,7 +356,7 @@ pub struct Hostile {
     recorded: Vec<(usize, Vec<u8>)>,
     /// 1 = mostly data frames (never-completing packets), 2 = flood of empty data frames whose ids are 32 apart,
     /// 3 = packets announced by their short last fragment only, 4 = slot reuse, 5 = complete
-    /// one-fragment packets ordered behind a packet that never arrives
+    /// one-fragment packets ordered behind a packet that never arrives, 6 = flood of sync frames
     focus: u8,
     flood_next: std::collections::BTreeMap<usize, u32>,
     /// focus 4: packet ids whose slots are to be reused 4096 ids later
@@ -444,6 +444,13 @@ impl Adversary for Hostile {
                     // that it holds an RTT estimate (and with it a burst allowance)
                     match (self.seen[victim].nonces.last().cloned(), probe) {
                         (Some((id, nonce)), Probe::Hc(h)) => enc_ack(h.tx_frame_window_base_id, h.tx_packet_base_id, &[(id, 1, nonce as u8)]),
+                        _ => enc_sync(None, None),
+                    }
+                } else if self.focus == 6 {
+                    // sync flood: every frame asks for an (empty) acknowledgement in reply; now and
+                    // then a genuine-looking acknowledgement so that the victim holds an RTT estimate
+                    match (self.rng.chance(0.1), self.seen[victim].nonces.last().cloned(), probe) {
+                        (true, Some((id, nonce)), Probe::Hc(h)) => enc_ack(h.tx_frame_window_base_id, h.tx_packet_base_id, &[(id, 1, nonce as u8)]),
                         _ => enc_sync(None, None),
                     }
                 } else if self.focus == 2 {
